@@ -192,6 +192,17 @@ func runC03(c *ShardCtx) {
 	}
 	leaves := []*peg.Expr{peg.Lit("a"), peg.LitI("ab"), peg.Lit("é\n\"\\"), peg.Cls(false, false, "a-c", "]", "x"), peg.Cls(true, true, "a", `\pL`, `\p{Latin}`), peg.Any(), peg.Ref("B"),
 		peg.AndCode(1), peg.NotCode(2), peg.StateCode(3), peg.Throw("l")}
+	// classes mixing escape forms (explicit spelling; content stated separately)
+	mixed := func(src string, inv, ic bool, items ...string) *peg.Expr {
+		e := peg.Cls(inv, ic, items...)
+		e.Src = src
+		return e
+	}
+	leaves = append(leaves,
+		mixed("[\\x41\\nab]", false, false, "A", "\n", "a", "b"),
+		mixed("[\\101\\tx-z]i", false, true, "A", "\t", "x-z"),
+		mixed("[^\\u00e9\\\\\\]q\\U0001F600\\r_]", true, false, "é", "\\", "]", "q", "\U0001F600", "\r", "_"),
+		mixed("[\\pL\\x30-\\x39\\n\\p{Nd}z]", false, false, "\\pL", "0-9", "\n", "\\p{Nd}", "z"))
 	en := peg.NewEnumerator(peg.Alphabet{Leaves: leaves, Unary: allUnary, Seq: true, Choice: true, MaxArity: 3, NestSame: true, Recover: [][]string{{"l"}, {"l", "m"}}})
 	devs := deviations()
 	idx := 0
